@@ -139,7 +139,43 @@ func cview(s string) string {
 	return s
 }
 
+// A binary of about the 30 MiB pipe limit is kept in the case as a stub ("\x00VERIF-HUGE:<n>") and
+// expanded to a position-dependent pattern when the case is interpreted, so that cases stay small.
+const hugeMagic = "\x00VERIF-HUGE:"
+
+var hugeSizes = []int{0x1e00000 - 4096, 0x1e00000, 0x1e00000 + 1, 0x1e00000 + 700000}
+
+var hugeCache = map[int][]byte{}
+
+func bx(b []byte) []byte {
+	if !bytes.HasPrefix(b, []byte(hugeMagic)) {
+		return b
+	}
+	n, _ := strconv.Atoi(string(b[len(hugeMagic):]))
+	if p, ok := hugeCache[n]; ok {
+		return p
+	}
+	p := make([]byte, n)
+	for i := range p {
+		p[i] = byte(i*31 + i>>9 + i>>17)
+	}
+	hugeCache[n] = p
+	return p
+}
+
+func isHuge(op Op) bool {
+	for _, b := range op.B {
+		if bytes.HasPrefix(b, []byte(hugeMagic)) {
+			return true
+		}
+	}
+	return false
+}
+
 func genBin(t *rapid.T, label string) []byte {
+	if rapid.IntRange(0, 59).Draw(t, label+"_huge") == 0 {
+		return []byte(hugeMagic + strconv.Itoa(rapid.SampledFrom(hugeSizes).Draw(t, label+"_hugesize")))
+	}
 	cls := rapid.SampledFrom([]string{"empty", "small", "zeros", "marker", "64k"}).Draw(t, label+"_cls")
 	switch cls {
 	case "empty":
@@ -415,8 +451,8 @@ func info(op Op) (map[string]interface{}, expect) {
 	case "fs.upload": // Command.c:888-889 FileName = GetWString, MemFileID = GetInt32
 		cmd(15)
 		m["SubCommand"] = "upload"
-		m["Arguments"] = b64(op.S[0]) + ";" + b64b(op.B[0])
-		e.memfiles = [][]byte{op.B[0]}
+		m["Arguments"] = b64(op.S[0]) + ";" + b64b(bx(op.B[0]))
+		e.memfiles = [][]byte{bx(op.B[0])}
 		e.fields = []want{i32(3), w(op.S[0]), {k: "memid", mi: 0}}
 	case "fs.cd", "fs.remove", "fs.mkdir": // Command.c:952 / 967 / 997
 		cmd(15)
@@ -467,25 +503,25 @@ func info(op Op) (map[string]interface{}, expect) {
 	case "inline": // Command.c:1124-1127 FunctionName(String), BofFileID, ParamsFileID, Flags
 		cmd(20)
 		m["FunctionName"] = op.S[0]
-		m["Binary"] = b64b(op.B[0])
-		m["Arguments"] = b64b(op.B[1])
+		m["Binary"] = b64b(bx(op.B[0]))
+		m["Arguments"] = b64b(bx(op.B[1]))
 		m["Flags"] = []string{"non-threaded", "threaded", "default", "weird"}[op.N[0]]
 		fl := []uint64{0, 1, 2, 0}[op.N[0]]
-		e.memfiles = [][]byte{op.B[0], op.B[1]}
+		e.memfiles = [][]byte{bx(op.B[0]), bx(op.B[1])}
 		e.fields = []want{cs(op.S[0]), {k: "memid", mi: 0}, {k: "memid", mi: 1}, i32(fl)}
 	case "dotnet": // Command.c:1721-1759 PipeName, AppDomain, NetVersion (WString), MemFileID, Args (WString)
 		cmd(0x2001)
-		m["Binary"] = b64b(op.B[0])
+		m["Binary"] = b64b(bx(op.B[0]))
 		m["Arguments"] = op.S[0]
-		e.memfiles = [][]byte{op.B[0]}
+		e.memfiles = [][]byte{bx(op.B[0])}
 		e.fields = []want{{k: "pipe"}, w("DefaultDomain"), w("v4.0.30319"), {k: "memid", mi: 0}, w(op.S[0])}
 	case "dotnet.versions":
 		cmd(0x2003)
 	case "spawndll": // Command.c:1254-1256 DllLdr, DllBytes, Arguments
 		cmd(26)
-		m["Binary"] = b64b(op.B[0])
-		m["Arguments"] = b64b(op.B[1])
-		e.fields = []want{by(fakeLdr), by(op.B[0]), by(op.B[1])}
+		m["Binary"] = b64b(bx(op.B[0]))
+		m["Arguments"] = b64b(bx(op.B[1]))
+		e.fields = []want{by(fakeLdr), by(bx(op.B[0])), by(bx(op.B[1]))}
 	case "job.list": // Command.c:192
 		cmd(21)
 		m["Command"] = "list"
@@ -498,19 +534,19 @@ func info(op Op) (map[string]interface{}, expect) {
 		e.fields = []want{i32(uint64(op.N[0])), i32(uint64(op.N[1]))}
 	case "injectdll": // Command.c:1217-1221 Technique, ProcessID, DllLdr, DllBytes, Parameter
 		cmd(22)
-		m["Binary"] = b64b(op.B[0])
+		m["Binary"] = b64b(bx(op.B[0]))
 		m["PID"] = strconv.FormatInt(op.N[0], 10)
 		m["Arguments"] = op.S[0]
-		e.fields = []want{i32(0), i32(uint64(op.N[0])), by(fakeLdr), by(op.B[0]), {k: "cstr", s: cview(op.S[0])}}
+		e.fields = []want{i32(0), i32(uint64(op.N[0])), by(fakeLdr), by(bx(op.B[0])), {k: "cstr", s: cview(op.S[0])}}
 	case "shellcode": // Command.c:1286-1291 Way, Method, x64, Payload, Argv, Pid
 		cmd(24)
 		m["Way"] = []string{"Spawn", "Inject", "Execute"}[op.N[0]] // INJECT_WAY_SPAWN 0, INJECT 1, EXECUTE 2 (Inject.h)
 		m["Technique"] = []string{"default", "createremotethread", "ntcreatethreadex", "ntqueueapcthread"}[op.N[1]]
 		m["Arch"] = map[bool]string{true: "x64", false: "x86"}[op.Flag[0]]
-		m["Binary"] = b64b(op.B[0])
-		m["Argument"] = b64b(op.B[1])
+		m["Binary"] = b64b(bx(op.B[0]))
+		m["Argument"] = b64b(bx(op.B[1]))
 		m["PID"] = strconv.FormatInt(op.N[2], 10)
-		e.fields = []want{i32(uint64(op.N[0])), i32(uint64(op.N[1])), i32(b2u(op.Flag[0])), by(op.B[0]), by(op.B[1])}
+		e.fields = []want{i32(uint64(op.N[0])), i32(uint64(op.N[1])), i32(b2u(op.Flag[0])), by(bx(op.B[0])), by(bx(op.B[1]))}
 		if op.N[0] == 1 {
 			e.fields = append(e.fields, i32(uint64(op.N[2])))
 		}
@@ -695,9 +731,9 @@ func info(op Op) (map[string]interface{}, expect) {
 	case "krb.ptt": // Command.c:3222-3224 Ticket (Bytes), luid
 		cmd(2550)
 		m["Command"] = "ptt"
-		m["Ticket"] = b64b(op.B[0])
+		m["Ticket"] = b64b(bx(op.B[0]))
 		m["Luid"] = hexArg(op.N[0], op.Flag[0])
-		e.fields = []want{i32(3), by(op.B[0]), i32(uint64(op.N[0]))}
+		e.fields = []want{i32(3), by(bx(op.B[0])), i32(uint64(op.N[0]))}
 	default:
 		panic("unknown kind " + op.Kind)
 	}
@@ -816,19 +852,48 @@ func check(c Case) *core.Violation {
 	if code != 200 {
 		return core.V("checkin|status", "check-in answered %d", code)
 	}
-	tasks, clean := demonref.ReadTasks(resp, s.Key, s.IV, k, lop)
-	wire, wireClean := demonref.ReadTasks(resp, s.Key, s.IV, 0, "")
-	if !wireClean {
-		return core.V("framing|malformed-response", "response is not a sequence of [cmd][req][len][body] records (%d bytes)", len(resp))
+	huge := false
+	for _, op := range c.Ops {
+		huge = huge || isHuge(op)
 	}
-	if !clean || len(tasks) != len(wire) {
-		last := wire[len(wire)-1]
-		return core.V("demon-loop|trailing-bodyless-task-dropped", "the Demon's dispatcher loop (while Parser.Length %s %d) executes %d of the %d tasks in the reply; the last one (cmd %d, %d-byte body) is never run", lop, k, len(tasks), len(wire), last.Cmd, len(last.Raw))
+	var tasks []demonref.Task
+	resps := [][]byte{resp}
+	for round := 0; ; round++ {
+		rtasks, clean := demonref.ReadTasks(resp, s.Key, s.IV, k, lop)
+		wire, wireClean := demonref.ReadTasks(resp, s.Key, s.IV, 0, "")
+		if !wireClean {
+			return core.V("framing|malformed-response", "response is not a sequence of [cmd][req][len][body] records (%d bytes)", len(resp))
+		}
+		if !clean || len(rtasks) != len(wire) {
+			last := wire[len(wire)-1]
+			return core.V("demon-loop|trailing-bodyless-task-dropped", "the Demon's dispatcher loop (while Parser.Length %s %d) executes %d of the %d tasks in the reply; the last one (cmd %d, %d-byte body) is never run", lop, k, len(rtasks), len(wire), last.Cmd, len(last.Raw))
+		}
+		if round > 0 && len(rtasks) == 1 && rtasks[0].Cmd == demonref.CmdNoJob {
+			break
+		}
+		tasks = append(tasks, rtasks...)
+		if !huge {
+			break // everything fits one reply; the no-job check at the end covers "left in the queue"
+		}
+		// a batch at the 30 MB pipe limit is handed out over several check-ins: the agent keeps
+		// checking in until it is told there is nothing left
+		if round == 16 {
+			return core.V("task|queue-never-drains", "17 check-ins and the agent is still handed tasks (%d so far)", len(tasks))
+		}
+		code, resp = w.Post(demonref.Batch(s.ID, 0, nil, s.Key, s.IV))
+		if code != 200 {
+			return core.V("checkin|status", "check-in %d answered %d", round+2, code)
+		}
+		resps = append(resps, resp)
 	}
 	// clear-text check
 	if !allZero(c.Key) {
 		for _, mk := range [][]byte{[]byte(marker), demonref.UTF16LE(marker)} {
-			if bytes.Contains(resp, mk) {
+			found := false
+			for _, r := range resps {
+				found = found || bytes.Contains(r, mk)
+			}
+			if found {
 				return core.V("cleartext|marker-in-response", "a task parameter appears in clear in the reply although the agent registered a non-zero key")
 			}
 		}
@@ -995,6 +1060,9 @@ func classify(c Case) core.Class {
 			hasStr = true
 		}
 		cl.Labels = append(cl.Labels, "kind:"+op.Kind)
+		if isHuge(op) {
+			cl.Labels = append(cl.Labels, "binary-at-the-30MiB-limit(several check-ins)")
+		}
 		ks = append(ks, op.Kind)
 	}
 	if allZero(c.Key) {
@@ -1019,7 +1087,7 @@ func classify(c Case) core.Class {
 func TestC02(t *testing.T) {
 	core.Run(t, core.Spec[Case]{
 		Property: "C02", Sub: "a",
-		Rule: "1-6 operator Session/Input packages (60 command/sub-command shapes, parameters from classes empty/ascii/NUL-terminated/BMP/astral/70000 chars/path/marker, boundary ints, 8-hex task ids incl. >=2^31) for one registered agent (random or all-zero key) -> real DispatchEvent/TaskPrepare/AddJobToQueue -> check-in through the real listener engine -> reply decoded by the Demon-side reference reader with the dispatcher loop condition read from Command.c. Oracle: per task the command id, request id == hex TaskID, every argument as the C handler's ParserGet* sequence reads it, mem-file chunks precede the command and share its id, no parameter marker in clear. Non-trivial: >=1 string/bytes argument or batch >=2; distinct = (first command kind, batch size bucket 1/2/3+, zero-key)",
+		Rule: "1-6 operator Session/Input packages (60 command/sub-command shapes, parameters from classes empty/ascii/NUL-terminated/BMP/astral/70000 chars/path/marker, boundary ints, 8-hex task ids incl. >=2^31) for one registered agent (random or all-zero key) -> real DispatchEvent/TaskPrepare/AddJobToQueue -> check-in through the real listener engine (binaries of about the 30 MiB pipe limit, 1 in 60, are collected over successive check-ins until the no-job reply) -> reply decoded by the Demon-side reference reader with the dispatcher loop condition read from Command.c. Oracle: per task the command id, request id == hex TaskID, every argument as the C handler's ParserGet* sequence reads it, mem-file chunks precede the command and share its id, no parameter marker in clear. Non-trivial: >=1 string/bytes argument or batch >=2; distinct = (first command kind, batch size bucket 1/2/3+, zero-key)",
 		Gen:   gen, Check: check, Classify: classify,
 		Assumptions: []string{
 			"demonref is a manual transcription of payloads/Demon/src/core/{Parser,Command,Package}.c",
